@@ -100,6 +100,8 @@ def build(case):
     from fibertree import Tensor, Fiber
     n, kind = case["n"], case["kind"]
     ids = U.RANK_NAMES[:n]
+    if kind == "yaml" and U.MODE["vkind"] == "sub":
+        U.MODE["vkind"] = "int"     # YAML text represents plain scalars only (C13's domain)
     base = U.build_tensor(case["tree"], n, case["shapes"], 0)
     # the source carries a few reference insertions (stored-but-empty sub-fibers, explicit
     # defaults) as real use leaves behind
